@@ -33,4 +33,52 @@ def history_irrelevant_statement : Prop :=
   ∀ (z : Zone) (h : Nat × Nat) (calls : List Call), TableWF z → CivilSorted z →
     runCalls z h calls = calls.map (stateless z)
 
+/-! ### proofs (helper lemmas in `Cctz/Proofs/TbSearch.lean`, `Cctz/Proofs/Hints.lean`) -/
+
+theorem breakTime_hint_irrelevant : breakTime_hint_irrelevant_statement :=
+  fun _ h t wf => Tb.breakTime_hint wf h t
+
+theorem makeTime_hint_irrelevant : makeTime_hint_irrelevant_statement :=
+  fun _ h cs wf cso => Tb.makeTime_hint wf cso h 0 cs
+
+theorem convert_hint_irrelevant : convert_hint_irrelevant_statement :=
+  fun _ h cs wf cso => Tb.convert_hint wf cso h 0 cs
+
+theorem history_irrelevant : history_irrelevant_statement :=
+  fun _ h calls wf cso => Tb.runCalls_stateless wf cso calls h
+
+/-! the hypotheses are satisfiable on a non-trivial table (three transitions, two types), and
+the hinted path is really taken there: hint 1 brackets `t = 5` / `1970-01-01 00:00:05` -/
+def exZone : Zone :=
+  { transitions := #[
+      { unixTime := 0, typeIndex := 0, civilSec := ⟨1970, 1, 1, 0, 0, 0⟩, prevCivilSec := ⟨1969, 12, 31, 23, 59, 59⟩ },
+      { unixTime := 10, typeIndex := 1, civilSec := ⟨1970, 1, 1, 1, 0, 10⟩, prevCivilSec := ⟨1970, 1, 1, 0, 0, 9⟩ },
+      { unixTime := 20, typeIndex := 0, civilSec := ⟨1970, 1, 1, 1, 0, 20⟩, prevCivilSec := ⟨1970, 1, 1, 1, 0, 19⟩ }],
+    types := #[{ utcOffset := 0, isDst := false, abbrIndex := 0 }, { utcOffset := 3600, isDst := true, abbrIndex := 4 }],
+    defaultType := 0, abbreviations := [85, 84, 67, 0, 68, 83, 84, 0] }
+
+theorem exZone_wf : TableWF exZone where
+  nonempty := by decide
+  timeSorted := by
+    intro i j hij hj
+    have hj' : j < 3 := hj
+    have : (i = 0 ∧ j = 1) ∨ (i = 0 ∧ j = 2) ∨ (i = 1 ∧ j = 2) := by omega
+    rcases this with ⟨rfl, rfl⟩ | ⟨rfl, rfl⟩ | ⟨rfl, rfl⟩ <;> decide
+  typeIdx := by
+    intro i hi
+    have hi' : i < 3 := hi
+    have : i = 0 ∨ i = 1 ∨ i = 2 := by omega
+    rcases this with rfl | rfl | rfl <;> decide
+  defaultIdx := by decide
+
+theorem exZone_civilSorted : CivilSorted exZone := by
+  intro i j hij hj
+  have hj' : j < 3 := hj
+  have : (i = 0 ∧ j = 1) ∨ (i = 0 ∧ j = 2) ∨ (i = 1 ∧ j = 2) := by omega
+  rcases this with ⟨rfl, rfl⟩ | ⟨rfl, rfl⟩ | ⟨rfl, rfl⟩ <;> decide
+
+example : (breakTime exZone 1 5).val = (breakTime exZone 0 5).val := by decide
+example : (breakTime exZone 2 5).val.1 = (breakTime exZone 0 5).val.1 ∧
+    (breakTime exZone 2 5).val.2 ≠ 2 := by decide
+
 end Cctz.C14
